@@ -209,7 +209,7 @@ def load_json_file():
         'description': cache['description'],
         'content': []
     }
-    basic.load_theory(filename, limit='start')
+    basic.load_theory(filename, limit='start', username=username)
     for item in cache['content']:
         if item.error is None:
             theory.thy.unchecked_extend(item.get_extension())
